@@ -66,6 +66,26 @@ func (c *Ctx) pairCases(s, e ssa.Value, acc []Lit, pins pinMap, depth int) []pai
 		}
 		return out
 	}
+	// only one of the two is selected at a join (`end := next(); if end == NoPos { end = comment.End() }`)
+	if eok != sok || (eok && sok) {
+		one, isEnd := ep, true
+		if !eok {
+			one, isEnd = sp, false
+		}
+		var out []pairCase
+		for i := range one.Edges {
+			var g []Lit
+			P.PinnedAll(pins, func() { g = P.EdgeGuards(one.Block().Preds[i], one.Block()) })
+			ns, ne := s, e
+			if isEnd {
+				ne = one.Edges[i]
+			} else {
+				ns = one.Edges[i]
+			}
+			out = append(out, c.pairCases(ns, ne, append(append([]Lit{}, acc...), g...), pins, depth+1)...)
+		}
+		return out
+	}
 	sx, sok2 := s.(*ssa.Extract)
 	ex, eok2 := e.(*ssa.Extract)
 	if sok2 && eok2 && sx.Tuple == ex.Tuple {
@@ -326,51 +346,62 @@ func (c *Ctx) scopeNextNode() {
 				"after recording the node that follows the comment the walk goes on into that node: a child that starts after the comment but before the node (the comment group attached to a declaration) replaces it, and the scope shrinks to that comment")
 		}
 	}
-	allInstrs(fn, func(b *ssa.BasicBlock, ins ssa.Instruction) {
-		r, ok := ins.(*ssa.Return)
-		if !ok || len(r.Results) != 1 {
-			return
-		}
-		v := r.Results[0]
-		if u, ok := v.(*ssa.UnOp); ok {
-			if cell := P.cellOf(u.X); cell != nil {
-				_, stores, _ := P.CellStores(cell)
-				for _, st := range stores {
-					check(st.Val, st, P.GuardsWithin(st, fn))
-				}
+	var analyse func(fn *ssa.Function, outer []Lit, depth int)
+	analyse = func(fn *ssa.Function, outer []Lit, depth int) {
+		allInstrs(fn, func(b *ssa.BasicBlock, ins ssa.Instruction) {
+			r, ok := ins.(*ssa.Return)
+			if !ok || len(r.Results) != 1 {
 				return
 			}
-			// the search state may be a field of a finder object local to this function, assigned by the walk
-			// callback (a method of that object)
-			if fa, ok := u.X.(*ssa.FieldAddr); ok {
-				if n := P.moduleStruct(deref(fa.X.Type())); n != nil {
-					if a, isLocal := fa.X.(*ssa.Alloc); isLocal && a.Parent() == fn {
-						for _, f := range P.ModFuncs {
-							allInstrs(f, func(_ *ssa.BasicBlock, i2 ssa.Instruction) {
-								st, ok := i2.(*ssa.Store)
-								if !ok {
-									return
-								}
-								fa2, ok := st.Addr.(*ssa.FieldAddr)
-								if !ok || fa2.Field != fa.Field || P.moduleStruct(deref(fa2.X.Type())) != n {
-									return
-								}
-								check(st.Val, st, P.GuardsWithin(st, fn))
-							})
+			v := r.Results[0]
+			// the search inside the declaration may live in a helper: its results, with the helper entered from here
+			if call, isCall := v.(*ssa.Call); isCall && depth < 2 {
+				if h := call.Call.StaticCallee(); h != nil && P.IsProductFunc(h) && len(h.Blocks) > 0 && !P.isAnchor(h) && !strings.HasSuffix(P.calleeName(call.Common()), ".End") {
+					P.PinnedAll(pinMap{h: call}, func() { analyse(h, append(append([]Lit{}, outer...), P.BlockGuards(b)...), depth+1) })
+					return
+				}
+			}
+			if u, ok := v.(*ssa.UnOp); ok {
+				if cell := P.cellOf(u.X); cell != nil {
+					_, stores, _ := P.CellStores(cell)
+					for _, st := range stores {
+						check(st.Val, st, append(append([]Lit{}, outer...), P.GuardsWithin(st, fn)...))
+					}
+					return
+				}
+				// the search state may be a field of a finder object local to this function, assigned by the walk
+				// callback (a method of that object)
+				if fa, ok := u.X.(*ssa.FieldAddr); ok {
+					if n := P.moduleStruct(deref(fa.X.Type())); n != nil {
+						if a, isLocal := fa.X.(*ssa.Alloc); isLocal && a.Parent() == fn {
+							for _, f := range P.ModFuncs {
+								allInstrs(f, func(_ *ssa.BasicBlock, i2 ssa.Instruction) {
+									st, ok := i2.(*ssa.Store)
+									if !ok {
+										return
+									}
+									fa2, ok := st.Addr.(*ssa.FieldAddr)
+									if !ok || fa2.Field != fa.Field || P.moduleStruct(deref(fa2.X.Type())) != n {
+										return
+									}
+									check(st.Val, st, P.GuardsWithin(st, fn))
+								})
+							}
+							return
 						}
-						return
 					}
 				}
 			}
-		}
-		for _, leaf := range c.phiLeaves(v, nil, 0) {
-			g := leaf.Guards
-			if len(g) == 0 {
-				g = P.BlockGuards(b)
+			for _, leaf := range c.phiLeaves(v, nil, 0) {
+				g := leaf.Guards
+				if len(g) == 0 {
+					g = P.BlockGuards(b)
+				}
+				check(leaf.Val, r, append(append(g, P.BlockGuards(b)...), outer...))
 			}
-			check(leaf.Val, r, append(g, P.BlockGuards(b)...))
-		}
-	})
+		})
+	}
+	analyse(fn, nil, 0)
 	c.floor("scope ends computed by findNextNodeAfterComment", nEnd, 2)
 	// the declaration index: first declaration whose End() lies after the comment
 	c.checkDeclSearch(fn, commentPos)
